@@ -134,11 +134,10 @@ func (a *Stats) add(b *Stats) {
 		addMap(&mm, m)
 		a.Hist[h] = mm
 	}
-	if len(a.Samples) < 8 {
-		for _, s := range b.Samples {
-			if len(a.Samples) < 8 {
-				a.Samples = append(a.Samples, s)
-			}
+	// one or two samples from every worker, up to 12: first cases and seed-selected later ones
+	for i, s := range b.Samples {
+		if len(a.Samples) < 12 && (i == 0 && len(a.Samples) < 2 || i > 0) {
+			a.Samples = append(a.Samples, s)
 		}
 	}
 	a.DeadlineHit = a.DeadlineHit || b.DeadlineHit
